@@ -8,7 +8,8 @@ RULE = ("S-syn listings with planted duplicates (whole instructions copied to a 
         "in both letter cases or none); definitions on the spine, later uses anywhere (inside $or/$not/$and_any_order/times), "
         "several names interleaved, spines up to 12 items (group numbers >= 10), other group kinds between definition and "
         "use. Oracle: R-dsl differential (identity of re-matched text, README width table). Non-trivial = model finds the "
-        "rule or one mutation from a found case, and the rule contains a capture; distinct = (rule, listing).")
+        "rule or one mutation from a found case, and the rule contains a capture; distinct = (rule, listing). "
+        "$deref component cells (no model): the same item twice on identical lines, a line differing in one named component, component names reused as plain operands.")
 FLOOR = {"quick": 300, "thorough": 4000}
 ANCHOR_HINTS = ["capture_manager", "capture_group", "capture_group_index", "special_register"]
 REQUIRED_EVENTS = ["hits_located"]
